@@ -518,6 +518,13 @@ def placement_scenarios(tier):
     for v in (0, 1):
         for off in (0, 4090, 4093):
             add(flavour="bool", boolv=v, func_page=0x10000000, off=off, tramp_delta_pages=2, disp=0)
+    # the next function packed right behind the 6-byte target (no padding to a 16-byte boundary)
+    for v in (0, 1):
+        for off in (0, 64, 4084, 4090):
+            add(flavour="bool", boolv=v, func_page=0x10000000, off=off, tramp_delta_pages=2, disp=0, packed=True)
+    for fl in ("raw", "unchecked"):
+        for off in (32, 4089):
+            add(flavour=fl, func_page=0x10000000, off=off, tramp_delta_pages=-1, disp=1 << 20, packed=True)
     n_rand = 60 if tier == "quick" else 3000
     for _ in range(n_rand):
         fl = rnd.choice(["raw", "raw", "unchecked", "bool"])
@@ -527,6 +534,24 @@ def placement_scenarios(tier):
         add(flavour=fl, boolv=rnd.choice([0, 1]), func_page=rnd.choice(bases) + 4096 * rnd.randrange(0, 64),
             off=rnd.choice(offs + [rnd.randrange(0, 4096)]), tramp_delta_pages=rnd.choice(deltas + [rnd.randrange(-32768, 32769)]),
             disp=d)
+    return scen
+
+
+def multi_scenarios():
+    """several targets per injector and several injector lifetimes per process, kernel-placed trampolines: targets packed in
+    one arena (page-aligned entries, entries in neighbouring pages, both orders), and consecutive lifetimes whose targets
+    lie far apart (more than the +/-128 MiB window) and close together"""
+    scen = []
+    G = 1 << 30
+    for base in (0x10000000, 0x200000000, 0x7e0000000000):
+        for offs in ([0x100, 0x1000, 0x200], [0, 0x1000, 0x2000], [0xff0, 0x1000, 0x1ff8], [0x1000, 0x100, 0x2000, 0x200],
+                     [0x2000, 0x1000, 0], [0x40]):
+            scen.append({"mode": "multi", "lives": [{"base": base, "pages": 3, "offs": offs}]})
+    # lifetimes that move around the address space: far, back, near
+    for a, b in ((0x10000000, 0x10000000 + G), (0x200000000, 0x200000000 - G), (0x10000000, 0x7e0000000000), (0x7e0000000000, 0x10000000),
+                 (0x10000000, 0x10000000 + (200 << 20)), (0x200000000, 0x200000000 + (129 << 20))):
+        scen.append({"mode": "multi", "lives": [{"base": a, "pages": 2, "offs": [0x100, 0x1000]}, {"base": b, "pages": 2, "offs": [0x200]},
+                                                {"base": a, "pages": 2, "offs": [0x1000, 0x300]}, {"base": b + 0x4000, "pages": 1, "offs": [0]}]})
     return scen
 
 
@@ -547,7 +572,7 @@ def prologue_scenarios():
 
 def placement_part(run, prop, tier):
     """a small placement run (arena targets, prologue family) validated under `prop`"""
-    scen = prologue_scenarios()
+    scen = prologue_scenarios() + multi_scenarios()
     if prop == "C12":
         # every mapping the allocator creates while searching -- accepted or rejected -- is accounted for
         scen += [dict(sc) for sc in alloc_scenarios(tier)]
@@ -567,13 +592,16 @@ def placement_part(run, prop, tier):
             evs = groups.get(sid, [])
             reached, total = tv["progress"][sid]
             sc = byid[sid]
-            run.violation("%s arena prologue=%s flavour=%s page_off=%s free=%s" % (prop, sc.get("prologue"), sc.get("flavour"), sc.get("off"), sc.get("free_deltas")),
+            run.violation(placement_key(prop, sc, evs) if sc.get("mode") == "multi" else
+                          "%s arena prologue=%s flavour=%s page_off=%s free=%s" % (prop, sc.get("prologue"), sc.get("flavour"), sc.get("off"), sc.get("free_deltas")),
                           {"scenario": sc, "trace_rejected_at": reached, "first_unmatched_event": evs[reached] if reached < len(evs) else None,
                            "events": [e for e in evs if e["ev"] in ("Place", "Installed", "Called", "Dropped", "ChildExit", "Neighbour", "Write")]})
     run.extra["prologue_placements"] = {"executed": len(live), "accepted": len(tv["accepted"])}
 
 
 def placement_key(prop, sc, evs):
+    if sc.get("mode") == "multi":
+        return "%s several targets/lifetimes, kernel-placed: %s" % (prop, json.dumps([[hex(l["base"]), [hex(o) for o in l["offs"]]] for l in sc["lives"]]))
     off = sc.get("off", 0)
     straddle = off + 5 > 4096
     inst = next((e for e in evs if e["ev"] == "Installed"), None)
@@ -603,6 +631,10 @@ def placement_check(prop, tier):
     for sc in prologue_scenarios():
         sc["id"] = len(scen) + 1
         scen.append(sc)
+    if prop in ("C01", "C13"):
+        for sc in multi_scenarios():
+            sc["id"] = len(scen) + 1
+            scen.append(sc)
     groups, order, _ = vlib.run_harness("placement", scen, "placement_" + prop, timeout=3000)
     cfgp = tlc.make_cfg("Trace_Patch", {"Props": '{"%s", "ALL"}' % prop}, "Trace_Patch_" + prop)
     live = []
@@ -731,6 +763,9 @@ def alloc_check(prop, tier):
     run.add_apalache("Apa_Encoder", "A64AcceptedIsEncodable")
     vlib.build_harness()
     scen = alloc_scenarios(tier)
+    for sc in multi_scenarios():
+        sc["id"] = len(scen) + 1
+        scen.append(sc)
     groups, order, _ = vlib.run_harness("placement", scen, "alloc_" + prop, timeout=3000)
     cfgp = tlc.make_cfg("Trace_Patch", {"Props": '{"C11", "ALL"}'}, "Trace_Patch_" + prop)
     live = []
@@ -759,7 +794,7 @@ def alloc_check(prop, tier):
             evs = groups.get(sid, [])
             reached, total = tv["progress"][sid]
             sc = byid[sid]
-            key = "C11 isa=x86_64 free=%s occupied=%s else=%s page_off=%s base=%#x" % (
+            key = placement_key("C11", sc, evs) if sc.get("mode") == "multi" else "C11 isa=x86_64 free=%s occupied=%s else=%s page_off=%s base=%#x" % (
                 sc.get("free_deltas"), sc.get("occupied"), sc.get("elsewhere_delta"), sc["off"], sc["func_page"])
             run.violation(key, {"scenario": sc, "trace_rejected_at": reached,
                                 "first_unmatched_event": evs[reached] if reached < len(evs) else None,
@@ -1517,6 +1552,35 @@ def async_check(prop, tier):
                 run.violation("C14 seq=%s" % key, {"scenario": sc, "trace_rejected_at": reached,
                                                    "first_unmatched_event": evs[reached] if reached < len(evs) else None, "events": evs})
     run.sample({"sequence": scen[0].get("steps"), "events": [e for e in groups.get(1, []) if e["ev"] in ("Fake", "Await", "Drop")]})
+    # the async entry points through the placement lattice: the poll function of an async fn as target, the trampoline
+    # page dictated around it, the fake (unchecked pointer) at exact displacements around +/-2^31 from the trampoline and far
+    M31 = 1 << 31
+    pscen = []
+    disps = [M31 + k for k in range(-6, 7)] + [-M31 + k for k in range(-6, 7)] + [1 << 20, -(1 << 20), 1 << 33, -(1 << 33), 1 << 40]
+    # trampoline pages well outside the harness image (a few MiB of text): +/-16 MiB, +/-64 MiB, the window's ends
+    for dl in ((4096, -4096) if tier == "quick" else (4096, -4096, 16384, -16384, 32767, -32767)):
+        for d in disps:
+            pscen.append({"id": len(pscen) + 1, "flavour": "async", "tramp_delta_pages": dl, "disp": d})
+    pg, po, _ = vlib.run_harness("placement", pscen, "placement_C14", timeout=3000)
+    cfgp = tlc.make_cfg("Trace_Patch", {"Props": '{"C14", "ALL"}'}, "Trace_Patch_C14")
+    live = [sc for sc in pscen if not any(e["ev"] == "Note" and e.get("what") == "skipped" for e in pg.get(sc["id"], []))]
+    n_ok = sum(1 for sc in live for e in pg.get(sc["id"], []) if e["ev"] == "Installed" and e["outcome"] == "ok")
+    if len(live) < len(pscen) // 2 or n_ok < len(live) // 2:
+        raise ToolError("vacuity guard: %d of %d async placements executed, %d installed" % (len(live), len(pscen), n_ok))
+    tvp = tlc.validate_traces("Trace_Patch", cfgp, [(sc["id"], pg.get(sc["id"], [])) for sc in live], WORK, "trace_C14p", timeout=3000)
+    run.traces += len(tvp["accepted"])
+    run.states += tvp["states"]
+    run.transitions += tvp["transitions"]
+    run.extra["async_placements"] = {"generated": len(pscen), "executed": len(live), "accepted": len(tvp["accepted"])}
+    bypid = {sc["id"]: sc for sc in pscen}
+    for sid in tvp["ids"]:
+        run.note_case("async placement delta=%s disp=%s" % (bypid[sid]["tramp_delta_pages"], bypid[sid]["disp"]))
+        if sid not in tvp["accepted"]:
+            evs = pg.get(sid, [])
+            reached, total = tvp["progress"][sid]
+            run.violation("C14 async placement tramp_delta_pages=%s fake_disp=%+#x" % (bypid[sid]["tramp_delta_pages"], bypid[sid]["disp"]),
+                          {"scenario": bypid[sid], "trace_rejected_at": reached, "first_unmatched_event": evs[reached] if reached < len(evs) else None,
+                           "events": [e for e in evs if e["ev"] in ("Place", "Installed", "Called", "Dropped", "ChildExit", "Neighbour")]})
     return run.finish()
 
 
